@@ -189,7 +189,13 @@ crd write conv --command cmt`,
 		if err != nil {
 			return err
 		}
-		return writeYamlOutput(cmd, wArgs.instances)
+		// print the input format, so that the result can be piped into crd write;
+		// the flags have overridden the first instance
+		if len(instances) > 0 {
+			v := wArgs.instances[0]
+			instances[0].BPM, instances[0].Velocity, instances[0].Meter, instances[0].Key = v.BPM, v.Velocity, v.Meter, v.Key
+		}
+		return writeYamlOutput(cmd, instances)
 	},
 }
 
